@@ -421,6 +421,9 @@ func renderProgram(c Node) string {
 	if sb, ok := c["srcbytes"]; ok {
 		return string(anyBytes(sb))
 	}
+	if st, ok := c["src"].(string); ok {
+		return st
+	}
 	var parts []string
 	for _, d := range nlist(c, "defs") {
 		s := "set " + nstr(d, "name") + " to pattern " + renderSeq(nlist(d, "es"))
